@@ -13,7 +13,7 @@ RULE = ('programs x placements of K<=2 (thorough: sampled K=3) requests from {pa
         'non-trivial when at least one request was applied and the process terminated')
 ASSUMPTIONS = ['lifecycle hooks do not raise (C03 owns that)', 'single-threaded deterministic event loop, no timers',
                'private attributes are read for coverage accounting only']
-REQUIRED = ['transitions', 'acts_after_terminal', 'samples']
+REQUIRED = ['transitions', 'acts_after_terminal', 'samples', 'oneshot_callbacks_fired']
 ALPHABET = [['pause', 'p'], ['play'], ['kill', 'k'], ['resume', ['v']], ['fail', 'f'], ['soon_ok', 'c'], ['soon_raise', 'c']]
 BOUNDS = {'quick': 'basic program family (14) K<=2 exhaustive over slots + 8 random programs (K=2 quarter-sampled)', 'thorough': 'K=3 exhaustive on 4 key programs, + 40 random programs, K=3 sampled'}
 
@@ -34,6 +34,14 @@ def gen_cases(tier, seed):
         if tier == 'quick' and name.startswith('rnd'):
             k2 = k2[seed % 4::4]  # random programs: a quarter of the pairs (rotating with the seed); the basic family is exhaustive
         plist += k2
+        # whoever drives the process gives up (the stepping task is cancelled, e.g. by a timeout), possibly while it is paused, and it is
+        # terminated afterwards, with or without a new stepping task
+        for s0 in range(0, n + 1):
+            for end in (['kill', 'k'], ['fail', 'f']):
+                plist.append([{'at': s0, 'act': ['pause', 'p']}, {'at': 'q', 'act': ['abort_task']}, {'at': 'q', 'act': end}])
+                plist.append([{'at': s0, 'act': ['pause', 'p']}, {'at': 'q', 'act': ['abort_task']}, {'at': 'q', 'act': ['restart_task']}, {'at': 'q', 'act': end}])
+                plist.append([{'at': s0, 'act': ['abort_task']}, {'at': 'q', 'act': end}])
+                plist.append([{'at': s0, 'act': ['abort_task']}, {'at': 'q', 'act': ['restart_task']}, {'at': 'q', 'act': end}])
         if tier == 'thorough':
             plist += list(plans.sampled_placements(rng, n, ALPHABET, 3, 300))
         deep = ()
@@ -42,12 +50,17 @@ def gen_cases(tier, seed):
         for i, plan in enumerate(itertools.chain(plist, deep)):
             yield {'name': name, 'program': prog, 'plan': plans.uniq(plan, 'q%d' % i), 'drain': True, 'barrage': True,
                           'probe': False, 'listener': True}
+        # the same with an observer's one-shot state callback that unregisters itself from inside the notification
+        for when in ('terminal', 'first'):
+            for i, plan in enumerate([[]] + list(plans.all_placements(n, ALPHABET, 1))):
+                yield {'name': name, 'program': prog, 'plan': plans.uniq(plan, 'o%d' % i), 'drain': True, 'barrage': True,
+                       'probe': False, 'listener': True, 'oneshot': when}
 
 
 def run_case(case):
     rec = lifecycle.run_case(case)
     viol = judges.judge_c01(rec)
-    obs = {'transitions': {}, 'samples': 0, 'acts_after_terminal': 0, 'acts': {}}
+    obs = {'transitions': {}, 'samples': 0, 'acts_after_terminal': 0, 'acts': {}, 'oneshot_callbacks_fired': sum(1 for e in rec['events'] if e[0] == 'oneshot')}
     for e in rec['events']:
         if e[0] == 'state':
             k = '%s->%s' % (e[1], e[2])
@@ -60,7 +73,7 @@ def run_case(case):
         k = '%s@%s' % (a['kind'], a['phase'])
         obs['acts'][k] = obs['acts'].get(k, 0) + 1
     res = {'viol': viol, 'obs': obs, 'inconclusive': rec['inconclusive'],
-           'key': [case['name'], case['plan']],
+           'key': [case['name'], case['plan'], case.get('oneshot')],
            'nontrivial': bool(case['plan']) and bool(rec['final'] and rec['final']['terminated'])}
     if not case['plan'] or viol:
         res['sample'] = {'program': case['name'], 'plan': case['plan'], 'final_state': rec['final']['state'] if rec['final'] else None,
